@@ -13,6 +13,12 @@ namespace Qentem.Unicode
 theorem map_cons_congr (a b : Nat) (h : a = b) (o : Option (List Nat)) :
     o.map (a :: ·) = o.map (b :: ·) := by subst h; rfl
 
+theorem flatMap_congr_mem {α : Type} (l : List α) (f g : α → List Nat) (h : ∀ i ∈ l, f i = g i) :
+    l.flatMap f = l.flatMap g := by
+  induction l with
+  | nil => rfl
+  | cons a t ih => simp [List.flatMap_cons, h a (by simp), ih (fun i hi => h i (by simp [hi]))]
+
 /-! ### masks and shifts as arithmetic -/
 
 theorem or80 : ∀ y, y < 64 → 0x80 ||| y = 0x80 + y := by decide
@@ -79,6 +85,14 @@ theorem toUTF16_arith (u : Nat) (h : u < 0x110000) : toUTF16 u =
   · have e10 : (u - 0x10000) >>> 10 = (u - 0x10000) / 1024 := by simp [Nat.shiftRight_eq_div_pow]
     simp only [e10, and3FF]
     rw [orD800 _ (by omega), orDC00 _ (by omega)]; simp; omega
+
+theorem toUTF_ascii (w c : Nat) (hc : c < 0x80) : toUTF w c = [c] := by
+  unfold toUTF toUTF8 toUTF16 toUTF32
+  split
+  · (try rw [if_pos hc]); simp; omega
+  split
+  · (try rw [if_pos (by omega)]); simp; omega
+  · simp; omega
 
 /-! ### the standard decoders on one sequence followed by anything -/
 
